@@ -49,6 +49,38 @@ def concurrent_cases(rng, n, npollers=2):
     return cases
 
 
+def contended_cases(rng, n):
+    """The completer's last step (taking the waker mutex) released while a poller holds that mutex (token 99): it has to
+    wait and goes on when the poller lets go. Exhaustive for one poller, random for two or three."""
+    cases = []
+    for w in (7, 8):
+        for pos in itertools.combinations_with_replacement(range(5), 3):
+            sched, k = [], 0
+            for idx in range(5):
+                while k < 3 and pos[k] == idx:
+                    sched.append(0 if k < 2 else 99)
+                    k += 1
+                if idx < 4:
+                    sched.append(1)
+            for final in (1, 5):
+                cases.append(dict(final=final, pollers=[(1, w)], sched=sched + [0, 1, 0, 1, 0, 1, 0, 1, 0], contended=True))
+    for _ in range(n):
+        k = rng.randint(2, 3)
+        pollers = [(i + 1, rng.choice([7, 8])) for i in range(k)]
+        pool = [0, 0, 99] + [99] * rng.randint(0, 2)
+        for i in range(k):
+            pool += [i + 1] * 4
+        # the completer's own order is kept (two plain steps, then the contended one)
+        rng.shuffle(pool)
+        seen = 0
+        for i, t in enumerate(pool):
+            if t in (0, 99):
+                seen += 1
+                pool[i] = 0 if seen <= 2 else 99
+        cases.append(dict(final=rng.choice([1, 2, 4, 5, 6]), pollers=pollers, sched=pool + list(range(k + 1)) * 5, contended=True))
+    return cases
+
+
 def all_two_poller_interleavings():
     """Every interleaving of the completer (3 steps) with two overlapping pollers (4 steps each): 11550 schedules."""
     cases = []
@@ -106,7 +138,7 @@ def run_model(cases, tag="ackm", flag_first=False):
                 f.write("From CacheD Require Import Base Model Ack.\nOpen Scope Z_scope.\n")
                 f.write("Eval vm_compute in [\n")
                 f.write(";\n".join("adump (arun %s %s [%s] %s)" % ("true" if flag_first else "false", FINAL_COQ[c["final"]],
-                                                                    "; ".join("(%d, %d)" % p for p in c["pollers"]), zlist(c["sched"])) for c in sub))
+                                                                    "; ".join("(%d, %d)" % p for p in c["pollers"]), zlist(c.get("msched", c["sched"]))) for c in sub))
                 f.write("].\n")
             v = parse_coq_values(coqc_eval(vfile))
             vals += v[0]
@@ -122,6 +154,10 @@ def run_model(cases, tag="ackm", flag_first=False):
 def compare(binary, cases, tag="ack"):
     """Returns (divergences, failures of the C12 monitor on the implementation, stats)."""
     impl = run_impl(binary, cases, tag)
+    for c, rec in impl:
+        if c.get("contended"):
+            # the model runs the steps as they happened: a completer waiting on the mutex takes its step when the mutex is released
+            c["msched"] = [t for t, e in rec["executed"] if t != 99]
     model = run_model(cases, tag + "m")
     mdict = {id(c): v for c, v in model}
     divs, fails = [], []
@@ -149,7 +185,11 @@ def compare(binary, cases, tag="ack"):
                 stats["pending"] += 1
             elif r >= 2:
                 stats["ready"] += 1
-        completer_steps = sum(1 for t, e in rec["executed"] if t == 0 and e == 1)
+        completer_steps = sum(1 for t, e in rec["executed"] if (t == 0 and e == 1) or (t == 99 and e == 3))
+        stats["completer_waited_on_mutex"] = stats.get("completer_waited_on_mutex", 0) + sum(1 for t, e in rec["executed"] if t == 99 and e == 2)
+        if any(t == 99 and e == 3 for t, e in rec["executed"]):
+            divs.append(dict(kind="ack", component="ack", field="waker mutex", schedule=c, impl=rec,
+                             model="done() waits for the waker mutex while a poll holds it", detail="done() got past the waker mutex although a poller was holding it"))
         # "the task that most recently polled before completion is woken": replay the executed steps to find which waker
         # was registered last before the completer's wake step
         waker_of = dict(c["pollers"])
@@ -158,9 +198,9 @@ def compare(binary, cases, tag="ack"):
         expected_wake = None
         cdone = 0
         for tid, e in rec["executed"]:
-            if e != 1:
+            if not (e == 1 or (tid == 99 and e == 3)):
                 continue
-            if tid == 0:
+            if tid in (0, 99):
                 cdone += 1
                 if cdone == 3:
                     expected_wake = last_registered
